@@ -148,7 +148,7 @@ def _execute(program, stats, hist):
             hedger.to(next(iter(d.underliers())).spot.dtype)
             cast_module_outputs(hedger.inputs, next(iter(d.underliers())).spot.dtype)
 
-            class _Fault(Exception):
+            class _Fault(RuntimeError):  # what torch itself raises on a shape or dtype error
                 pass
             calls = [0]
 
